@@ -4,6 +4,7 @@ import (
 	"fmt"
 	"go/ast"
 	"go/token"
+	"strconv"
 	"strings"
 )
 
@@ -495,6 +496,94 @@ func c08ReadKeysEffects(s *source, e *emitter, rel string) {
 	e.stringList("withOpaqueKeysStmts", "body of the option `WithOpaqueKeys` in "+rel, stmts)
 }
 
+// c08AllocSites emits, for one function, every allocation call (reflect.New / reflect.MakeSlice / reflect.MakeMap* / make)
+// with its loop depth (number of enclosing for / range statements inside the function), and the stores into the
+// result container (SetMapIndex / SetMapIndexValue / value.Set / SetValue) with theirs; and, per store inside a loop,
+// whether the stored identifier was declared inside that loop (`fresh`) or outside it (`hoisted`).
+func c08AllocSites(s *source, e *emitter, rel, fn, lean string) {
+	fd := s.findFunc(rel, fn)
+	type site struct {
+		text  string
+		depth int
+	}
+	var allocs, stores []site
+	var hoisted, elemCalls []string
+	if fd == nil {
+		e.errors = append(e.errors, "function "+fn+" not found in "+rel)
+	} else {
+		var walk func(n ast.Node, depth int, declared map[string]int)
+		walk = func(n ast.Node, depth int, declared map[string]int) {
+			ast.Inspect(n, func(x ast.Node) bool {
+				if x == nil || x == n {
+					return true
+				}
+				switch y := x.(type) {
+				case *ast.RangeStmt:
+					walk(y.Body, depth+1, declared)
+					return false
+				case *ast.ForStmt:
+					walk(y.Body, depth+1, declared)
+					return false
+				case *ast.AssignStmt:
+					if y.Tok == token.DEFINE {
+						for _, l := range y.Lhs {
+							if id, ok := l.(*ast.Ident); ok {
+								declared[id.Name] = depth
+							}
+						}
+					}
+				case *ast.CallExpr:
+					fun := strings.Join(strings.Fields(s.src(y.Fun)), " ")
+					txt := strings.Join(strings.Fields(s.src(y)), " ")
+					if depth > 0 && strings.HasPrefix(fun, "u.") {
+						elemCalls = append(elemCalls, txt)
+					}
+					switch {
+					case fun == "reflect.New" || fun == "reflect.MakeSlice" || strings.HasPrefix(fun, "reflect.MakeMap") || fun == "make":
+						allocs = append(allocs, site{txt, depth})
+					case fun == "SetMapIndexValue" || fun == "SetValue" || strings.HasSuffix(fun, ".SetMapIndex") || strings.HasSuffix(fun, ".Set"):
+						stores = append(stores, site{txt, depth})
+						if depth > 0 && len(y.Args) > 0 {
+							// the root identifier of the stored value (last argument)
+							var root func(ex ast.Expr) string
+							root = func(ex ast.Expr) string {
+								switch z := ex.(type) {
+								case *ast.Ident:
+									return z.Name
+								case *ast.SelectorExpr:
+									return root(z.X)
+								case *ast.CallExpr:
+									return root(z.Fun)
+								case *ast.IndexExpr:
+									return root(z.X)
+								}
+								return ""
+							}
+							r := root(y.Args[len(y.Args)-1])
+							if d, ok := declared[r]; ok && d < depth && r != "reflect" {
+								hoisted = append(hoisted, r+" in "+txt)
+							}
+						}
+					}
+				}
+				return true
+			})
+		}
+		walk(fd.Body, 0, map[string]int{})
+	}
+	pr := func(name, doc string, l []site) {
+		var items []string
+		for _, x := range l {
+			items = append(items, fmt.Sprintf("(%s, %d)", strconv.Quote(x.text), x.depth))
+		}
+		e.printf("/-- %s of `%s` in %s, each with its loop depth -/\ndef %s : List (String × Int) := [%s]\n\n", doc, fn, rel, name, strings.Join(items, ",\n  "))
+	}
+	pr(lean+"Allocs", "allocation calls", allocs)
+	pr(lean+"Stores", "stores into the result", stores)
+	e.stringList(lean+"ElemCalls", "calls of the unmarshaller's own methods inside a loop of `"+fn+"`, with their arguments (the per-element target)", elemCalls)
+	e.stringList(lean+"Hoisted", "values stored inside a loop of `"+fn+"` whose variable was declared outside that loop", hoisted)
+}
+
 func c08Semantic(s *source, e *emitter) {
 	const fo = "core/mapping/fieldoptions.go"
 	const ut = "core/mapping/utils.go"
@@ -538,6 +627,12 @@ func c08Semantic(s *source, e *emitter) {
 	calls(um, "getValue", "getValueCalls")
 	calls(um, "getValueWithChainedKeys", "chainedKeysCalls")
 	c08ReadKeysEffects(s, e, um)
+	// --- round 5c: a fresh target per entry / per element
+	c08AllocSites(s, e, um, "Unmarshaler.generateMap", "generateMap")
+	c08AllocSites(s, e, um, "Unmarshaler.fillSlice", "fillSlice")
+	c08AllocSites(s, e, um, "Unmarshaler.fillSliceFromString", "fillSliceFromString")
+	c08AllocSites(s, e, um, "Unmarshaler.fillSliceValue", "fillSliceValue")
+	c08AllocSites(s, e, um, "Unmarshaler.fillStructElement", "fillStructElement")
 	calls("core/mapping/yamlunmarshaler.go", "UnmarshalYamlBytes", "unmarshalYamlBytesCalls")
 	calls("core/mapping/tomlunmarshaler.go", "UnmarshalTomlBytes", "unmarshalTomlBytesCalls")
 	calls("core/mapping/yamlunmarshaler.go", "UnmarshalYamlReader", "unmarshalYamlReaderCalls")
